@@ -5,7 +5,7 @@
      fixes   five bits: count neg loop next str   (behavioural repairs present in the tree under test)
      checked comma separated hazard sites whose check the tree has ("-" none, "*" all)
      hex     the input ("-" = empty)
-     shapes  U: one destination shape; C: return shapes separated by ';' ("-" none); S: "-"
+     shapes  U: one destination shape; C: return shapes separated by '+' ("-" none); S: "-"
      then the answers of the library parsers (finite oracle table)
    shape syntax: I iface | s string | y []byte | t time | g uuid | Bi Bf Br *big | nb ni<bits> nu<bits> nf32 nf64
                  L<e> slice | A<n>:<e> array | M<k><v> map | P<e> ptr | S<hexname>{<hexalias>:<shape>;...}
@@ -73,12 +73,15 @@ let parse_shape (s : string) : shape =
       let name = hexrun () in
       if peek () <> '{' then failwith "struct"; adv ();
       let rec fs () : fields =
-        if peek () = '}' then (adv (); FNil) else begin
+        if peek () = '}' then begin adv (); FNil end
+        else begin
           let a = hexrun () in
-          if peek () <> ':' then failwith "field"; adv ();
+          (if peek () <> ':' then failwith ("field at " ^ string_of_int !pos ^ " in " ^ s));
+          adv ();
           let t = sh () in
-          if peek () = ';' then adv ();
-          FCons (bytes_of_hex a, t, fs ())
+          (if peek () = ';' then adv ());
+          let rest = fs () in
+          FCons (bytes_of_hex a, t, rest)
         end in
       let f = fs () in
       SStruct (bytes_of_hex (if name = "" then "-" else name), f)
@@ -154,7 +157,7 @@ let run line =
       let key = string_of_okind k ^ ":" ^ (if t = [] then "-" else hex_of_bytes t) in
       (try Some (Hashtbl.find tbl key) with Not_found -> None) in
     let input = bytes_of_hex hex in
-    let shapes_l = if shapes = "-" then [] else Stdlib.List.map parse_shape (String.split_on_char ';' shapes) in
+    let shapes_l = if shapes = "-" then [] else Stdlib.List.map parse_shape (String.split_on_char '+' shapes) in
     let dmax = Stdlib.List.fold_left (fun a s -> max a (int_of_nat (depth s))) 1 shapes_l in
     let fuel = fuel_for registry input (nat_of_int (dmax + 6)) in
     let fin_of (type a) (r : a out) (is_err : a -> st -> bool) : string =
